@@ -134,7 +134,7 @@ type Bounds struct {
 
 func BoundsFor(tier string) Bounds {
 	if tier == "thorough" {
-		return Bounds{Tier: tier, D1FullArity: 4, D1MaxArity: 4, D2Arity3Pool: Reduced, RawLen: 7}
+		return Bounds{Tier: tier, D1FullArity: 4, D1MaxArity: 5, D2Arity3Pool: Reduced, RawLen: 8}
 	}
 	return Bounds{Tier: tier, D1FullArity: 3, D1MaxArity: 4, D2Arity3Pool: Tiny, RawLen: 6}
 }
